@@ -28,8 +28,8 @@ def objective(i, sense, shape):
     """objective i (0-based) of a file; every objective is a different function of (x0, x1)"""
     x = ('v', 0)
     if shape == 'lin':   return (sense, None, {0: i + 1, 1: -(i + 2)})                       # (i+1) x0 - (i+2) x1
-    if shape == 'const': return (sense, ('n', 7 + i), {})                                      # 7 + i
-    if shape == 'abs':   return (sense, ('add', ('abs', x), ('n', i)), {1: i + 3})              # |x0| + i + (i+3) x1
+    if shape == 'const': return (sense, ('n', (7 + i) * (-1 if i % 2 else 1)), {})                # 7, -8, 9 (both signs)
+    if shape == 'abs':   return (sense, ('add', ('abs', x), ('n', i - 1.5)), {1: i + 3})        # |x0| + (i-1.5) + (i+3) x1 (negative constants too)
     if shape == 'quad':  return (sense, ('mul', ('pow2', x), ('n', i + 1)), {1: 2 * i + 1})    # (i+1) x0^2 + (2i+1) x1
     raise ValueError(shape)
 
@@ -367,7 +367,7 @@ def self_test():
         if reference(n, k, m) != v: bad.append('reference(%s,%s,%s)' % (n, k, m))
     # the comparison must reject a deliberately wrong delivered objective
     model = make_model([('min', 'lin'), ('max', 'abs')])
-    dump = {'vars': [[-10, 10, 0, None], [-10, 10, 0, None], [0, 10, 0, None], [1, 1, 0, None]],
+    dump = {'vars': [[-10, 10, 0, None], [-10, 10, 0, None], [0, 10, 0, None], [-0.5, -0.5, 0, None]],
             'cons': [{'type': 'AbsConstraint', 'data': {'res_var': 2, 'args': [0], 'params': []}}],
             'objs': [{'index': 0, 'sense': 1, 'lin': {'coefs': [4, 1, 1], 'vars': [1, 2, 3]},
                       'qp': {'coefs': [], 'vars1': [], 'vars2': []}}]}
